@@ -37,6 +37,25 @@ CLAIMED.update({
                      "small sections are enumerated completely with the whole probe set."),
 })
 
+CLAIMED.update({
+    "C14": dict(cat="exploration", ref="DESIGN.md 3 (C14), B.3",
+                technique="deterministic simulation of operation histories: 1-2 simulated clients, each a real LASFile and a "
+                          "plain list model driven by the same seeded operation sequence, interleaved by a seeded op-level "
+                          "scheduler; model equality, agreement of all views and non-interference checked after every step",
+                text="Every listed curve operation (positions incl. negatives and beyond the end, existing/new/duplicate/blank "
+                     "names, set_data with wider arrays, names lists, truncate) is generated; after each step order, original "
+                     "names, metadata and arrays equal the list model and keys/values/items/index/data/int and mnemonic "
+                     "indexing agree, on both clients' objects."),
+    "C17": dict(cat="exploration", ref="DESIGN.md 3 (C17)",
+                technique="deterministic simulation of operation histories with checkpoint/restart/clone: pickle protocols 0..5 and "
+                          "deepcopy land after any prefix of a seeded curve+section history, on the LASFile, a section or an "
+                          "item; canon equality, write() text equality, isolation after mutation, and continued model agreement "
+                          "on the restored object",
+                text="Copies are compared with the original through the canonical observation (sessions, originals, units, typed "
+                     "values, descriptions, arrays with dtype, index_unit, index_initial, encoding, case flags) and through "
+                     "write() text; mutation of the copy must not reach the original; after a restart the history continues."),
+})
+
 NOT_APPLICABLE = {
     "C04": "read_header_line is a pure function of one already-delivered line (regex cascade): no stream position, "
            "history, fault or interleaving can influence it, so deterministic simulation adds nothing (DESIGN.md 4)",
